@@ -264,6 +264,40 @@ def renormalisation(rep: Report, prog: Program, resolver: Resolver, tier: str) -
                   "to {One: 1} when nothing is left", simp.where(o.node))
 
 
+def stable_hash(rep: Report, prog: Program, resolver: Resolver, rid: str) -> None:
+    """Interned objects are used as dict keys and set members everywhere (intern tables, lru_cache keys,
+    ROOT_POWER_DIMENSIONS, factor maps).  If a class defines __hash__/__eq__ over a field that some
+    function assigns after construction (Dimension.define extends every `exponents`), members stored
+    before the assignment sit under a stale hash and membership silently turns False."""
+    for cls in ("Dimension", "Prefix", "Unit", "Logarithm", "LogarithmicUnit"):
+        ci = prog.cls(cls)
+        hashed: Set[str] = set()
+        for d in ("__hash__", "__eq__"):
+            if d in ci.methods:
+                fn = prog.functions[ci.methods[d]]
+                me = fn.params()[0]
+                hashed |= {a.attr for a in ast.walk(fn.node) if isinstance(a, ast.Attribute) and isinstance(a.value, ast.Name) and a.value.id == me}
+        if not hashed:
+            rep.ok(rid, f"{cls}:identity-hash", note="no __hash__/__eq__ override: identity semantics")
+            continue
+        mutated: Dict[str, str] = {}
+        for q, fi in prog.functions.items():
+            if fi.module in ("hypothesis", "pytest") or (fi.cls == cls and fi.name in ("__init__", "__new__", "__setstate__")):
+                continue
+            for st in ast.walk(fi.node):
+                tg = st.targets if isinstance(st, ast.Assign) else ([st.target] if isinstance(st, (ast.AugAssign, ast.AnnAssign)) else [])
+                for t in tg:
+                    for x in (t.elts if isinstance(t, (ast.Tuple, ast.List)) else [t]):
+                        if isinstance(x, ast.Attribute) and x.attr in hashed:
+                            alts = resolver.expr_alts(fi, x.value)
+                            if any(k == "inst" and full.split(".")[-1] == cls for k, full in alts):
+                                mutated.setdefault(x.attr, f"{q}: {ast.unparse(st)[:50]}")
+        rep.check(rid, f"{cls}:hash-over-{'+'.join(sorted(hashed))}", not mutated,
+                  f"{cls} defines __hash__/__eq__ over {sorted(mutated)} but {list(mutated.values())[0] if mutated else ''} assigns it after construction: "
+                  f"every {cls} already stored in a set or dict (ROOT_POWER_DIMENSIONS, intern tables, memo keys) is then filed under a stale hash",
+                  f"{ci.path}:{ci.node.lineno}")
+
+
 def rekeying(rep: Report, prog: Program) -> None:
     """R02.9: when Dimension.define appends a fundamental dimension, *every* interned
     dimension must get the longer exponent vector and its new key - otherwise dimensions
@@ -292,6 +326,9 @@ def rekeying(rep: Report, prog: Program) -> None:
 def run(rep: Report) -> None:
     prog = Program()
     resolver = Resolver(prog)
+    rep.rule("R02.11", "interned classes hash by identity, or over fields nothing assigns after construction", floor=5)
+    rep.rule("R02.10", "no memoised operator distinguishes (or is keyed by) numeric types the cache key conflates: x ** 3 must not depend on an "
+             "earlier x ** 3.0", floor=1)
     rep.rule("R02.9", "Dimension.define re-keys every interned dimension when the exponent vector grows", floor=1)
     rep.rule("R02.1", "intern keys are canonical: Unit key order-normalised and built from prefix+factors; Dimension "
              "key = exponents; Prefix key = (base, exponent) after identity canonicalisation", floor=5)
@@ -307,6 +344,9 @@ def run(rep: Report) -> None:
              "log-values in every arm (same base, identity, cross-base change of base)", floor=10)
     key_canonicity(rep, prog)
     rekeying(rep, prog)
+    stable_hash(rep, prog, resolver, "R02.11")
+    from ..quantity_rules import check_numeric_memo
+    check_numeric_memo(rep, prog, resolver, "R02.10")
     intern_protocol(rep, prog)
     check_group_ops(rep, "R02.5", prog, resolver, DIM_OPS, "unit", ())
     check_group_ops(rep, "R02.3", prog, resolver, UNIT_OPS, "unit", ("dimension", "prefix", "unit"))
